@@ -502,6 +502,9 @@ class World:
             # the same definition spelled as a chain of specialised factories: parameters one .where() call
             # each instead of argument defaults (they accumulate), effects one call each (they accumulate
             # too), every other keyword in a call of its own, a NoCache via the .nocache property
+            # the chain starts from the factory with the OPPOSITE abstract setting and states the wanted one
+            # explicitly in its last link: a later explicit setting (also a falsy one) overrides an inherited one
+            factory = dataset(abstract=True) if not p["abstract"] else dataset(abstract=False)
             if p["definition"] is None:
                 body.__defaults__ = None
             for i, prm in enumerate(params):
@@ -513,6 +516,7 @@ class World:
                 factory = factory.nocache
             for k in list(kw):
                 factory = factory(**{k: kw.pop(k)})
+            factory = factory(abstract=bool(p["abstract"]))
             d = factory(body)
         else:
             d = factory(body, **kw)
